@@ -356,3 +356,18 @@ mut("gap-state-shared-between-gaps", "C11", T, "        let mut attrs = HashSet:
 mut("flags-clear-keep-clears-countable", "C04", B, "    pub fn clear_keep(&mut self) {\n        self.clear(ITEM_FLAG_KEEP)", "    pub fn clear_keep(&mut self) {\n        self.clear(ITEM_FLAG_COUNTABLE)", ".flags")
 mut("string-column-counts-chars", "C13", "yrs/src/updates/encoder.rs", "        let utf16_len = str.encode_utf16().count(); // Yjs encodes offsets using utf-16", "        let utf16_len = str.chars().count();", "block-wire", also=["C09"])
 mut("c18g-reset-after-removal-keeps-clock", "C18", AWF, "                state.last_updated = now;\n                state.clock += 1;\n                state.data.replace(json.clone())", "                state.last_updated = now;\n                let prev = state.data.replace(json.clone());\n                if prev.is_some() {\n                    state.clock += 1;\n                }\n                prev", "C18.g")
+# ---------------------------------------------------------------- benign refactors for the rules of rounds 5 and 6
+mut("benign-format-replaced-match", "C03", "yrs/src/types/text.rs", "                        if v == value.as_ref() {\n                            negated_attrs.remove(key);\n                        } else {\n                            negated_attrs.insert(key.clone(), *value.clone());\n                        }",
+    "                        let same = v == value.as_ref();\n                        match same {\n                            true => {\n                                negated_attrs.remove(key);\n                            }\n                            false => {\n                                negated_attrs.insert(key.clone(), *value.clone());\n                            }\n                        }", "", kind="benign")
+mut("benign-gap-state-with-capacity", "C11", T, "        let mut attrs = HashSet::new();\n        // iterate back until a content item is found", "        let mut attrs = HashSet::with_capacity(4);\n        // iterate back until a content item is found", "", kind="benign", also=["C06"])
+mut("benign-string-column-named-count", "C13", "yrs/src/updates/encoder.rs", "        let utf16_len = str.encode_utf16().count(); // Yjs encodes offsets using utf-16", "        let units = str.encode_utf16();\n        let utf16_len = units.count();", "", kind="benign", also=["C09"])
+mut("benign-identity-match-on-item", "C14", "yrs/src/sticky_index.rs", "        if let Some(ptr) = branch.item {\n            let id = ptr.id().clone();\n            Self::new(IndexScope::Nested(id), assoc)\n        } else if let Some(name) = &branch.name {\n            Self::new(IndexScope::Root(name.clone()), assoc)\n        } else {\n            unreachable!()\n        }",
+    "        match branch.item {\n            Some(ptr) => {\n                let id = ptr.id().clone();\n                Self::new(IndexScope::Nested(id), assoc)\n            }\n            None => match &branch.name {\n                Some(name) => Self::new(IndexScope::Root(name.clone()), assoc),\n                None => unreachable!(),\n            },\n        }", "", kind="benign", also=["C09"])
+mut("benign-encode-update-bound-set", "C07", T, "        store.write_blocks_from(self.before_state(), encoder);\n        self.delete_set.encode(encoder);", "        store.write_blocks_from(self.before_state(), encoder);\n        let ds = &self.delete_set;\n        ds.encode(encoder);", "", kind="benign")
+mut("benign-merge-pending-named", "C02", T, "    if let Some(pending_ds) = store.pending_ds.as_ref() {\n        let mut u = Update::new();\n        u.delete_set = pending_ds.clone();\n        merge.push_back(u.encode_v1());\n    }", "    if let Some(pending_ds) = store.pending_ds.as_ref() {\n        let mut u = Update::new();\n        u.delete_set = pending_ds.clone();\n        let bytes = u.encode_v1();\n        merge.push_back(bytes);\n    }", "", kind="benign", also=["C01", "C06"])
+mut("benign-known-state-named-len", "C01", BS, "                        known_state.remove_range(&BlockRange::new(\n                            ID::new(*client, skip.start),\n                            skip.end - skip.start,\n                        ));", "                        let hole = BlockRange::new(ID::new(*client, skip.start), skip.end - skip.start);\n                        known_state.remove_range(&hole);", "", kind="benign", also=["C02"])
+mut("benign-state-vector-match", "C06", BS, "            if let Some(clock) = ranges.clock_start() {\n                map.insert(*client, clock);\n            }", "            match ranges.clock_start() {\n                Some(clock) => {\n                    map.insert(*client, clock);\n                }\n                None => {}\n            }", "", kind="benign", also=["C02", "C18"])
+mut("benign-flags-clear-keep-const-alias", "C04", B, "    pub fn clear_keep(&mut self) {\n        self.clear(ITEM_FLAG_KEEP)", "    pub fn clear_keep(&mut self) {\n        let mask = ITEM_FLAG_KEEP;\n        self.clear(mask)", "", kind="benign")
+mut("benign-awareness-bump-named", "C18", AWF, "                state.data = None;\n                state.clock += 1;\n                true", "                state.data = None;\n                let next = state.clock + 1;\n                state.clock = next;\n                true", "", kind="benign")
+mut("benign-text-remove-arm-order", "C03", "yrs/src/types/text.rs", "                ItemContent::Embed(_) | ItemContent::String(_) | ItemContent::Type(_) => {\n                    let content_len = item.content_len(encoding);\n                    let ptr = pos.right.unwrap();", "                ItemContent::Type(_) | ItemContent::String(_) | ItemContent::Embed(_) => {\n                    let content_len = item.content_len(encoding);\n                    let ptr = pos.right.unwrap();", "", kind="benign")
+mut("benign-siblings-back-named-flag", "C17", "yrs/src/types/xml.rs", "            if let Some(left) = self.current.as_deref() {\n                if !left.is_deleted() {\n                    if let ItemContent::Type(inner) = &left.content {", "            if let Some(left) = self.current.as_deref() {\n                let gone = left.is_deleted();\n                if !gone {\n                    if let ItemContent::Type(inner) = &left.content {", "", kind="benign")
